@@ -129,6 +129,7 @@ func (eng *Engine) verifyFunc(fn *ssa.Function, props []string) (fc *FnCtx, err 
 			fc.assumes["axiom: "+ax.Text+" ("+ax.Src+")"] = true
 			fc.assume("true", t)
 		}
+		eng.extFuncUses(fc, fr.specEnv(st, st), spec) // ext_induct.go: closures of the lemmas the contract `uses`
 		if spec != nil {
 			// auxiliary variables start at their declared initial values
 			env := fr.specEnv(st, st)
@@ -224,6 +225,9 @@ func (eng *Engine) lemmaCtx(l *Lemma) (fc *FnCtx, err error) {
 		}
 		env.vars[b.Name] = SV{t: name, typ: t}
 	}
+	if e := eng.extLemmaBefore(fc, env, l); e != nil { // ext_induct.go: `uses` closures and the induction hypothesis
+		return nil, fmt.Errorf("contract-stale: lemma %s: %v", l.Name, e)
+	}
 	for _, cl := range l.Requires {
 		t, e := env.evalBool(cl.E)
 		if e != nil {
@@ -231,6 +235,7 @@ func (eng *Engine) lemmaCtx(l *Lemma) (fc *FnCtx, err error) {
 		}
 		fc.assume("true", t)
 	}
+	eng.extLemmaAfterRequires(fc, env, l)
 	cov := &Obligation{Name: "lemma:" + l.Name + "#cover", Kind: "cover", Func: "lemma:" + l.Name, Guard: "true", Cond: "false", Cover: true}
 	fc.script = append(fc.script, Item{ob: cov})
 	fc.obls = append(fc.obls, cov)
